@@ -503,3 +503,753 @@ Example C13_example_welch_overlap :
   ov_tabs (Fin (1#2)) (Fin (1#4)) (Fin 6) (Fin 4) (Fin 2) (Fin 10) (Fin 10) (Fin 8) =x= Fin (- 75 # 46) /\
   ov_df (Fin 10) (Fin 10) (Fin 8) =x= Fin 12.
 Proof. vm_compute. repeat split; reflexivity. Qed.
+
+(* ==== GenAgree (pairwise translator): what measure.py, pairwise_significance.py, cubepart.py SAY NOW ==== *)
+(* Gen/PairwiseSrc.v is REWRITTEN FROM THE SOURCE on every check by harness/translate/x_pairwise.py (an
+   `ast` whitelist, fail-closed): one [option pexp] per (class, member) -- per block for a `blocks`-shaped
+   member -- read through the wiring SecondOrderMeasures.pairwise_*(column_idx); [option bmexp] for the
+   index sets, [option jexp] / [olexp] / [wexp] (Base/PairCtlExp.v) for the alpha parsing, the only_larger flag and
+   the arguments the public index-set members hand to the static method.  The theorems below say that what the source SAYS NOW ([pev false]: the value; [pev true]:
+   the signed square t*|t| of a term with np.sqrt in it; Base/PairExp.v), for ALL sizes, input blocks,
+   selected columns in range, flags and for EVERY function standing for scipy's t.cdf, IS the definition of
+   Model.Pairwise / Model.PairwiseP the theorems above are about -- tagged shape and every in-range cell.
+   [None] on the left = the translator could not read the member (then only the correspondence ties it).
+   A change of meaning in the source breaks these obligations (Proofs/GenAgreePairwise*.v fail). *)
+From Coq Require String.
+From CC Require Base.MeasureExp Base.PairExp Base.PairCtlExp Model.PairwiseP Gen.PairwiseSrc Proofs.PairwisePProofs
+     Proofs.GenAgreePairTac Proofs.GenAgreePairwise Proofs.GenAgreePairwiseMeans
+     Proofs.GenAgreePairwiseOverlap Proofs.GenAgreePairwiseLegacy Proofs.GenAgreePairwiseCtl.
+Section GenAgreePairwise_C13.   (* scopes and imports below end with the section *)
+Import Coq.Strings.String CC.Base.MeasureExp CC.Base.PairExp CC.Base.PairCtlExp CC.Model.PairwiseP CC.Gen.PairwiseSrc
+       CC.Proofs.PairwisePProofs CC.Proofs.GenAgreePairTac CC.Proofs.GenAgreePairwise
+       CC.Proofs.GenAgreePairwiseMeans CC.Proofs.GenAgreePairwiseOverlap CC.Proofs.GenAgreePairwiseLegacy
+       CC.Proofs.GenAgreePairwiseCtl.
+Import Coq.Lists.List.ListNotations CC.Base.XQ.
+Local Close Scope Q_scope.
+Local Open Scope string_scope.
+Local Open Scope nat_scope.
+
+(* ---- what the p-value definitions of Model/PairwiseP.v MEAN (for every function cdf) ---- *)
+Theorem C13_p_model_range (cdf : xq -> xq -> xq) (tt df : xq) (c : Q) :
+  cdf (xabs tt) df = Fin c -> (1 # 2 <= c)%Q -> (c <= 1)%Q ->
+  exists p : Q, pval_x cdf tt df = Fin p /\ (p == 2 * (1 - c))%Q /\ (0 <= p)%Q /\ (p <= 1)%Q.
+Proof. exact (pval_x_range cdf tt df c). Qed.
+Print Assumptions C13_p_model_range.
+
+Theorem C13_p_model_of_square (cdf : xq -> xq -> xq) (tt tt' df : xq) :
+  xabs tt = xabs tt' -> pval_x cdf tt df = pval_x cdf tt' df.
+Proof. exact (pval_x_of_square cdf tt tt' df). Qed.
+Print Assumptions C13_p_model_of_square.
+
+Theorem C13_p_model_two_sided (cdf : xq -> xq -> xq) (tt df : xq) :
+  (forall x y d, x =x= y -> cdf x d = cdf y d) ->
+  pval_x cdf (xneg tt) df = pval_x cdf tt df.
+Proof. exact (pval_x_even cdf tt df). Qed.
+Print Assumptions C13_p_model_two_sided.
+
+Theorem C13_p_model_cell cdf TT N rn i j : i < nrows TT -> j < ncols TT ->
+  mnth (pw_pblock cdf TT N rn) i j = pval_x cdf (mnth TT i j) (t_df (mnth N i j) (vnth rn i)).
+Proof. exact (pw_pblock_cell cdf TT N rn i j). Qed.
+Print Assumptions C13_p_model_cell.
+
+Theorem C13_p_model_means_subtotal_nan cdf sel M S N i j : (sel < 0)%Z -> i < nrows M -> j < ncols M ->
+  mnth (welch_pblock cdf sel M S N) i j = NaN.
+Proof. exact (welch_pblock_subtotal_nan cdf sel M S N i j). Qed.
+Print Assumptions C13_p_model_means_subtotal_nan.
+
+Theorem C13_p_model_means_cell cdf sel M S N i j : (0 <= sel)%Z -> i < nrows M -> j < ncols M ->
+  mnth (welch_pblock cdf sel M S N) i j =
+  pval_x cdf (mnth (welch_tblock sel M S N) i j) (mnth (welch_dfblock sel S N) i j).
+Proof. exact (welch_pblock_cell cdf sel M S N i j). Qed.
+Print Assumptions C13_p_model_means_cell.
+
+Theorem C13_p_model_overlap_self cdf a CP S N i : i < nrows CP -> a < ncols CP ->
+  mnth (ov_pblock cdf a CP S N) i a = ov_p_self.
+Proof. exact (ov_pblock_self cdf a CP S N i). Qed.
+Print Assumptions C13_p_model_overlap_self.
+
+Theorem C13_p_model_overlap_cell cdf a b CP S N i : i < nrows CP -> b < ncols CP -> b <> a ->
+  mnth (ov_pblock cdf a CP S N) i b =
+  pval_x cdf (mnth (ov_tblock a CP S N) i b)
+         (xsub (ov_df (mnth (nth i N []) a a) (mnth (nth i N []) b b) (mnth (nth i N []) a b)) (Fin 2)).
+Proof. exact (ov_pblock_offdiag cdf a b CP S N i). Qed.
+Print Assumptions C13_p_model_overlap_cell.
+
+Theorem C13_gen_pairwise_t_stats :
+  (match src_PairwiseSigTstats_blocks_00 with
+  | Some e => forall nr nc nrs ncs sel blk pblk cubem flag cdf,
+      pw_shaped blk nr nc nrs ncs -> sel_ok sel nc ncs ->
+      pagrees_mat (penv_std nr nc nrs ncs sel blk pblk cubem flag cdf)
+                  (pev true (penv_std nr nc nrs ncs sel blk pblk cubem flag cdf) e) DR DC
+                  (mnth (nth 0 (pw_model sel flag blk) []))
+  | None => True
+  end) /\
+  (match src_PairwiseSigTstats_blocks_01 with
+  | Some e => forall nr nc nrs ncs sel blk pblk cubem flag cdf,
+      pw_shaped blk nr nc nrs ncs -> sel_ok sel nc ncs ->
+      pagrees_mat (penv_std nr nc nrs ncs sel blk pblk cubem flag cdf)
+                  (pev true (penv_std nr nc nrs ncs sel blk pblk cubem flag cdf) e) DR DCS
+                  (mnth (nth 1 (pw_model sel flag blk) []))
+  | None => True
+  end) /\
+  (match src_PairwiseSigTstats_blocks_10 with
+  | Some e => forall nr nc nrs ncs sel blk pblk cubem flag cdf,
+      pw_shaped blk nr nc nrs ncs -> sel_ok sel nc ncs ->
+      pagrees_mat (penv_std nr nc nrs ncs sel blk pblk cubem flag cdf)
+                  (pev true (penv_std nr nc nrs ncs sel blk pblk cubem flag cdf) e) DRS DC
+                  (mnth (nth 2 (pw_model sel flag blk) []))
+  | None => True
+  end) /\
+  (match src_PairwiseSigTstats_blocks_11 with
+  | Some e => forall nr nc nrs ncs sel blk pblk cubem flag cdf,
+      pw_shaped blk nr nc nrs ncs -> sel_ok sel nc ncs ->
+      pagrees_mat (penv_std nr nc nrs ncs sel blk pblk cubem flag cdf)
+                  (pev true (penv_std nr nc nrs ncs sel blk pblk cubem flag cdf) e) DRS DCS
+                  (mnth (nth 3 (pw_model sel flag blk) []))
+  | None => True
+  end).
+Proof. exact (conj gen_PairwiseSigTstats_blocks_00 (conj gen_PairwiseSigTstats_blocks_01 (conj gen_PairwiseSigTstats_blocks_10 gen_PairwiseSigTstats_blocks_11))). Qed.
+Print Assumptions C13_gen_pairwise_t_stats.
+
+Theorem C13_gen_pairwise_column_bases :
+  (match src_PairwiseSigTstats__column_bases_00 with
+  | Some e => forall nr nc nrs ncs sel blk pblk cubem flag cdf,
+      pw_shaped blk nr nc nrs ncs ->
+      pagrees_mat (penv_std nr nc nrs ncs sel blk pblk cubem flag cdf)
+                  (pev false (penv_std nr nc nrs ncs sel blk pblk cubem flag cdf) e) DR DC
+                  (mnth (pw_bases flag blk 0 0))
+  | None => True
+  end) /\
+  (match src_PairwiseSigTstats__column_bases_01 with
+  | Some e => forall nr nc nrs ncs sel blk pblk cubem flag cdf,
+      pw_shaped blk nr nc nrs ncs ->
+      pagrees_mat (penv_std nr nc nrs ncs sel blk pblk cubem flag cdf)
+                  (pev false (penv_std nr nc nrs ncs sel blk pblk cubem flag cdf) e) DR DCS
+                  (mnth (pw_bases flag blk 0 1))
+  | None => True
+  end) /\
+  (match src_PairwiseSigTstats__column_bases_10 with
+  | Some e => forall nr nc nrs ncs sel blk pblk cubem flag cdf,
+      pw_shaped blk nr nc nrs ncs ->
+      pagrees_mat (penv_std nr nc nrs ncs sel blk pblk cubem flag cdf)
+                  (pev false (penv_std nr nc nrs ncs sel blk pblk cubem flag cdf) e) DRS DC
+                  (mnth (pw_bases flag blk 1 0))
+  | None => True
+  end) /\
+  (match src_PairwiseSigTstats__column_bases_11 with
+  | Some e => forall nr nc nrs ncs sel blk pblk cubem flag cdf,
+      pw_shaped blk nr nc nrs ncs ->
+      pagrees_mat (penv_std nr nc nrs ncs sel blk pblk cubem flag cdf)
+                  (pev false (penv_std nr nc nrs ncs sel blk pblk cubem flag cdf) e) DRS DCS
+                  (mnth (pw_bases flag blk 1 1))
+  | None => True
+  end).
+Proof. exact (conj gen_PairwiseSigTstats__column_bases_00 (conj gen_PairwiseSigTstats__column_bases_01 (conj gen_PairwiseSigTstats__column_bases_10 gen_PairwiseSigTstats__column_bases_11))). Qed.
+Print Assumptions C13_gen_pairwise_column_bases.
+
+Theorem C13_gen_pairwise_p_vals :
+  (match src_PairwiseSigPvals_blocks_00 with
+  | Some e => forall nr nc nrs ncs sel blk pblk cubem flag cdf,
+      pw_shaped blk nr nc nrs ncs -> sel_ok sel nc ncs ->
+      pagrees_mat (penv_std nr nc nrs ncs sel blk pblk cubem flag cdf)
+                  (pev false (penv_std nr nc nrs ncs sel blk pblk cubem flag cdf) e) DR DC
+                  (pw_pcell cdf sel flag blk pblk 0 0)
+  | None => True
+  end) /\
+  (match src_PairwiseSigPvals_blocks_01 with
+  | Some e => forall nr nc nrs ncs sel blk pblk cubem flag cdf,
+      pw_shaped blk nr nc nrs ncs -> sel_ok sel nc ncs ->
+      pagrees_mat (penv_std nr nc nrs ncs sel blk pblk cubem flag cdf)
+                  (pev false (penv_std nr nc nrs ncs sel blk pblk cubem flag cdf) e) DR DCS
+                  (pw_pcell cdf sel flag blk pblk 0 1)
+  | None => True
+  end) /\
+  (match src_PairwiseSigPvals_blocks_10 with
+  | Some e => forall nr nc nrs ncs sel blk pblk cubem flag cdf,
+      pw_shaped blk nr nc nrs ncs -> sel_ok sel nc ncs ->
+      pagrees_mat (penv_std nr nc nrs ncs sel blk pblk cubem flag cdf)
+                  (pev false (penv_std nr nc nrs ncs sel blk pblk cubem flag cdf) e) DRS DC
+                  (pw_pcell cdf sel flag blk pblk 1 0)
+  | None => True
+  end) /\
+  (match src_PairwiseSigPvals_blocks_11 with
+  | Some e => forall nr nc nrs ncs sel blk pblk cubem flag cdf,
+      pw_shaped blk nr nc nrs ncs -> sel_ok sel nc ncs ->
+      pagrees_mat (penv_std nr nc nrs ncs sel blk pblk cubem flag cdf)
+                  (pev false (penv_std nr nc nrs ncs sel blk pblk cubem flag cdf) e) DRS DCS
+                  (pw_pcell cdf sel flag blk pblk 1 1)
+  | None => True
+  end).
+Proof. exact (conj gen_PairwiseSigPvals_blocks_00 (conj gen_PairwiseSigPvals_blocks_01 (conj gen_PairwiseSigPvals_blocks_10 gen_PairwiseSigPvals_blocks_11))). Qed.
+Print Assumptions C13_gen_pairwise_p_vals.
+
+Theorem C13_gen_means_t_stats :
+  match src_PairwiseMeansSigTStats_t_stats with
+  | Some e => forall nr nc nrs ncs sel blk pblk cubem flag cdf,
+      shaped (cM cubem) nr nc -> (sel < Z.of_nat nc)%Z ->
+      pagrees_mat (penv_std nr nc nrs ncs sel blk pblk cubem flag cdf)
+                  (pev true (penv_std nr nc nrs ncs sel blk pblk cubem flag cdf) e) DR DC
+                  (mnth (welch_tblock sel (cM cubem) (cS cubem) (cN cubem)))
+  | None => True
+  end.
+Proof. exact gen_PairwiseMeansSigTStats_t_stats. Qed.
+Print Assumptions C13_gen_means_t_stats.
+
+Theorem C13_gen_means_t_stats_blocks :
+  (match src_PairwiseMeansSigTStats_blocks_00 with
+  | Some e => forall nr nc nrs ncs sel blk pblk cubem flag cdf,
+      shaped (cM cubem) nr nc -> (sel < Z.of_nat nc)%Z ->
+      pagrees_mat (penv_std nr nc nrs ncs sel blk pblk cubem flag cdf)
+                  (pev true (penv_std nr nc nrs ncs sel blk pblk cubem flag cdf) e) DR DC
+                  (mnth (welch_tblock sel (cM cubem) (cS cubem) (cN cubem)))
+  | None => True
+  end) /\
+  (match src_PairwiseMeansSigTStats_blocks_01 with
+  | Some e => forall nr nc nrs ncs sel blk pblk cubem flag cdf,
+      (sel < Z.of_nat nc)%Z ->
+      pagrees_mat (penv_std nr nc nrs ncs sel blk pblk cubem flag cdf)
+                  (pev true (penv_std nr nc nrs ncs sel blk pblk cubem flag cdf) e) DR DCS
+                  (fun _ _ => NaN)
+  | None => True
+  end) /\
+  (match src_PairwiseMeansSigTStats_blocks_10 with
+  | Some e => forall nr nc nrs ncs sel blk pblk cubem flag cdf,
+      (sel < Z.of_nat nc)%Z ->
+      pagrees_mat (penv_std nr nc nrs ncs sel blk pblk cubem flag cdf)
+                  (pev true (penv_std nr nc nrs ncs sel blk pblk cubem flag cdf) e) DRS DC
+                  (fun _ _ => NaN)
+  | None => True
+  end) /\
+  (match src_PairwiseMeansSigTStats_blocks_11 with
+  | Some e => forall nr nc nrs ncs sel blk pblk cubem flag cdf,
+      (sel < Z.of_nat nc)%Z ->
+      pagrees_mat (penv_std nr nc nrs ncs sel blk pblk cubem flag cdf)
+                  (pev true (penv_std nr nc nrs ncs sel blk pblk cubem flag cdf) e) DRS DCS
+                  (fun _ _ => NaN)
+  | None => True
+  end).
+Proof. exact (conj gen_PairwiseMeansSigTStats_blocks_00 (conj gen_PairwiseMeansSigTStats_blocks_01 (conj gen_PairwiseMeansSigTStats_blocks_10 gen_PairwiseMeansSigTStats_blocks_11))). Qed.
+Print Assumptions C13_gen_means_t_stats_blocks.
+
+Theorem C13_gen_means_df :
+  match src_PairwiseMeansSigPVals__df with
+  | Some e => forall nr nc nrs ncs sel blk pblk cubem flag cdf,
+      shaped (cS cubem) nr nc -> (0 <= sel < Z.of_nat nc)%Z ->
+      pagrees_mat (penv_std nr nc nrs ncs sel blk pblk cubem flag cdf)
+                  (pev false (penv_std nr nc nrs ncs sel blk pblk cubem flag cdf) e) DR DC
+                  (mnth (welch_dfblock sel (cS cubem) (cN cubem)))
+  | None => True
+  end.
+Proof. exact gen_PairwiseMeansSigPVals__df. Qed.
+Print Assumptions C13_gen_means_df.
+
+Theorem C13_gen_means_p_vals :
+  match src_PairwiseMeansSigPVals_p_vals with
+  | Some e => forall nr nc nrs ncs sel blk pblk cubem flag cdf,
+      shaped (cM cubem) nr nc -> shaped (cS cubem) nr nc -> (sel < Z.of_nat nc)%Z ->
+      pagrees_mat (penv_std nr nc nrs ncs sel blk pblk cubem flag cdf)
+                  (pev false (penv_std nr nc nrs ncs sel blk pblk cubem flag cdf) e) DR DC
+                  (mnth (welch_pblock cdf sel (cM cubem) (cS cubem) (cN cubem)))
+  | None => True
+  end.
+Proof. exact gen_PairwiseMeansSigPVals_p_vals. Qed.
+Print Assumptions C13_gen_means_p_vals.
+
+Theorem C13_gen_means_p_vals_blocks :
+  (match src_PairwiseMeansSigPVals_blocks_00 with
+  | Some e => forall nr nc nrs ncs sel blk pblk cubem flag cdf,
+      shaped (cM cubem) nr nc -> shaped (cS cubem) nr nc -> (sel < Z.of_nat nc)%Z ->
+      pagrees_mat (penv_std nr nc nrs ncs sel blk pblk cubem flag cdf)
+                  (pev false (penv_std nr nc nrs ncs sel blk pblk cubem flag cdf) e) DR DC
+                  (mnth (welch_pblock cdf sel (cM cubem) (cS cubem) (cN cubem)))
+  | None => True
+  end) /\
+  (match src_PairwiseMeansSigPVals_blocks_01 with
+  | Some e => forall nr nc nrs ncs sel blk pblk cubem flag cdf,
+      (sel < Z.of_nat nc)%Z ->
+      pagrees_mat (penv_std nr nc nrs ncs sel blk pblk cubem flag cdf)
+                  (pev false (penv_std nr nc nrs ncs sel blk pblk cubem flag cdf) e) DR DCS
+                  (fun _ _ => NaN)
+  | None => True
+  end) /\
+  (match src_PairwiseMeansSigPVals_blocks_10 with
+  | Some e => forall nr nc nrs ncs sel blk pblk cubem flag cdf,
+      (sel < Z.of_nat nc)%Z ->
+      pagrees_mat (penv_std nr nc nrs ncs sel blk pblk cubem flag cdf)
+                  (pev false (penv_std nr nc nrs ncs sel blk pblk cubem flag cdf) e) DRS DC
+                  (fun _ _ => NaN)
+  | None => True
+  end) /\
+  (match src_PairwiseMeansSigPVals_blocks_11 with
+  | Some e => forall nr nc nrs ncs sel blk pblk cubem flag cdf,
+      (sel < Z.of_nat nc)%Z ->
+      pagrees_mat (penv_std nr nc nrs ncs sel blk pblk cubem flag cdf)
+                  (pev false (penv_std nr nc nrs ncs sel blk pblk cubem flag cdf) e) DRS DCS
+                  (fun _ _ => NaN)
+  | None => True
+  end).
+Proof. exact (conj gen_PairwiseMeansSigPVals_blocks_00 (conj gen_PairwiseMeansSigPVals_blocks_01 (conj gen_PairwiseMeansSigPVals_blocks_10 gen_PairwiseMeansSigPVals_blocks_11))). Qed.
+Print Assumptions C13_gen_means_p_vals_blocks.
+
+Theorem C13_gen_overlap_helper_t_stats :
+  match src_OverlapHelper_t_stats with
+  | Some e => forall nr nc i a b CP c3 cdf,
+      shaped CP nr nc -> sq3 (c3 "arg" "selected_bases") nr nc -> sq3 (c3 "arg" "valid_bases") nr nc ->
+      i < nr -> a < nc -> b < nc ->
+      pagrees_scal (pev true (penv_helper nr nc (Z.of_nat i) (Z.of_nat a) (Z.of_nat b) CP c3 cdf) e)
+                   (mnth (ov_tblock a CP (c3 "arg" "selected_bases") (c3 "arg" "valid_bases")) i b)
+  | None => True
+  end.
+Proof. exact gen_OverlapHelper_t_stats. Qed.
+Print Assumptions C13_gen_overlap_helper_t_stats.
+
+Theorem C13_gen_overlap_helper_df :
+  match src_OverlapHelper__df with
+  | Some e => forall nr nc i a b CP c3 cdf,
+      sq3 (c3 "arg" "valid_bases") nr nc -> i < nr -> a < nc -> b < nc ->
+      pagrees_scal (pev false (penv_helper nr nc (Z.of_nat i) (Z.of_nat a) (Z.of_nat b) CP c3 cdf) e)
+                   (let n := nth i (c3 "arg" "valid_bases") [] in
+                    ov_df (mnth n a a) (mnth n b b) (mnth n a b))
+  | None => True
+  end.
+Proof. exact gen_OverlapHelper__df. Qed.
+Print Assumptions C13_gen_overlap_helper_df.
+
+Theorem C13_gen_overlap_helper_p_vals :
+  match src_OverlapHelper_p_vals with
+  | Some e => forall nr nc i a b CP c3 cdf,
+      shaped CP nr nc -> sq3 (c3 "arg" "selected_bases") nr nc -> sq3 (c3 "arg" "valid_bases") nr nc ->
+      i < nr -> a < nc -> b < nc ->
+      pagrees_scal (pev false (penv_helper nr nc (Z.of_nat i) (Z.of_nat a) (Z.of_nat b) CP c3 cdf) e)
+                   (mnth (ov_pblock cdf a CP (c3 "arg" "selected_bases") (c3 "arg" "valid_bases")) i b)
+  | None => True
+  end.
+Proof. exact gen_OverlapHelper_p_vals. Qed.
+Print Assumptions C13_gen_overlap_helper_p_vals.
+
+Theorem C13_gen_overlap_t_stats_for_subvar :
+  match src_PairwiseSigTStatsForSubvar_t_stats with
+  | Some e => forall nr nc nrs ncs a blk c3 cdf,
+      ov_shaped blk c3 nr nc -> a < nc ->
+      pagrees_mat (penv_ov nr nc nrs ncs (Z.of_nat a) blk c3 cdf)
+                  (pev true (penv_ov nr nc nrs ncs (Z.of_nat a) blk c3 cdf) e) DR DC
+                  (mnth (ov_tblock a (blk "column_proportions" 0 0)
+                                   (c3 "cube_overlaps" "selected_bases") (c3 "cube_overlaps" "valid_bases")))
+  | None => True
+  end.
+Proof. exact gen_PairwiseSigTStatsForSubvar_t_stats. Qed.
+Print Assumptions C13_gen_overlap_t_stats_for_subvar.
+
+Theorem C13_gen_overlap_p_vals_for_subvar :
+  match src_PairwiseSigPValsForSubvar_p_vals with
+  | Some e => forall nr nc nrs ncs a blk c3 cdf,
+      ov_shaped blk c3 nr nc -> a < nc ->
+      pagrees_mat (penv_ov nr nc nrs ncs (Z.of_nat a) blk c3 cdf)
+                  (pev false (penv_ov nr nc nrs ncs (Z.of_nat a) blk c3 cdf) e) DR DC
+                  (mnth (ov_pblock cdf a (blk "column_proportions" 0 0)
+                                   (c3 "cube_overlaps" "selected_bases") (c3 "cube_overlaps" "valid_bases")))
+  | None => True
+  end.
+Proof. exact gen_PairwiseSigPValsForSubvar_p_vals. Qed.
+Print Assumptions C13_gen_overlap_p_vals_for_subvar.
+
+Theorem C13_gen_legacy_t_stats :
+  match src_Legacy_t_stats with
+  | Some e => forall nr nc c mr props W UB wv ubv sqv flag cdf,
+      shaped props nr nc -> c < nc ->
+      pagrees_mat (penv_legacy nr nc c mr props W UB wv ubv sqv flag cdf)
+                  (pev true (penv_legacy nr nc c mr props W UB wv ubv sqv flag cdf) e) DR DC
+                  (mnth (legacy_t props (lmat mr W wv nr nc) (lmat mr UB ubv nr nc)
+                                  (if flag "columns_squared_base is not None" then Some sqv else None) c))
+  | None => True
+  end.
+Proof. exact gen_Legacy_t_stats. Qed.
+Print Assumptions C13_gen_legacy_t_stats.
+
+Theorem C13_gen_pairwise_indices :
+  match psrc_Slice__pairwise_indices with
+  | Some b => forall rows cols P T alpha ol own,
+      nrows P = rows -> (forall i, i < rows -> List.length (mrow P i) = cols) -> own < cols ->
+      ipev (benv_std rows cols P T alpha ol own) b = Some (indices_col alpha ol own P T)
+  | None => True
+  end.
+Proof. exact gen_Slice__pairwise_indices. Qed.
+Print Assumptions C13_gen_pairwise_indices.
+
+Theorem C13_gen_alpha_values :
+  match psrc_CubePartition__alpha_values with
+  | Some e => forall v, aval_wf v -> res_agrees (jev (j_of_aval v) e) (alpha_parse v)
+  | None => True
+  end.
+Proof. exact gen_CubePartition__alpha_values. Qed.
+Print Assumptions C13_gen_alpha_values.
+
+Theorem C13_gen_alpha_projections :
+  match psrc_CubePartition__alpha with
+  | Some a => a = 0
+  | None => True
+  end /\
+  match psrc_CubePartition__alpha_alt with
+  | Some b => b = 1
+  | None => True
+  end.
+Proof. exact gen_CubePartition__alpha_projections. Qed.
+Print Assumptions C13_gen_alpha_projections.
+
+Theorem C13_gen_only_larger :
+  match psrc_CubePartition__only_larger with
+  | Some e => forall v, olev e (j_of_ol v) = only_larger_parse v
+  | None => True
+  end.
+Proof. exact gen_CubePartition__only_larger. Qed.
+Print Assumptions C13_gen_only_larger.
+
+Theorem C13_gen_cube_has_overlaps :
+  match psrc_Slice__cube_has_overlaps with
+  | Some c => forall E,
+      rcev E c = d_dimtype E (-1)%Z "MR" && (d_cube_given E "overlaps" && d_cube_given E "valid_overlaps")
+  | None => True
+  end.
+Proof. exact gen_Slice__cube_has_overlaps. Qed.
+Print Assumptions C13_gen_cube_has_overlaps.
+
+Theorem C13_gen_selected_column_routing :
+  (match psrc_Slice__pairwise_significance_t_stats with
+  | Some e => forall E c, dev E e c = routed E "pairwise_t_stats_for_subvar" "pairwise_t_stats" c
+  | None => True
+  end) /\
+  (match psrc_Slice__pairwise_significance_p_vals with
+  | Some e => forall E c, dev E e c = routed E "pairwise_p_vals_for_subvar" "pairwise_p_vals" c
+  | None => True
+  end) /\
+  (match psrc_Slice__pairwise_significance_means_t_stats with
+  | Some e => forall E c,
+      dev E e c = routed E "pairwise_significance_means_t_stats" "pairwise_significance_means_t_stats" c
+  | None => True
+  end) /\
+  (match psrc_Slice__pairwise_significance_means_p_vals with
+  | Some e => forall E c,
+      dev E e c = routed E "pairwise_significance_means_p_vals" "pairwise_significance_means_p_vals" c
+  | None => True
+  end).
+Proof. exact (conj gen_Slice__pairwise_significance_t_stats (conj gen_Slice__pairwise_significance_p_vals (conj gen_Slice__pairwise_significance_means_t_stats gen_Slice__pairwise_significance_means_p_vals))). Qed.
+Print Assumptions C13_gen_selected_column_routing.
+
+Theorem C13_gen_pairwise_indices_args :
+  (match psrc_Slice_pairwise_indices with
+  | Some e => forall cols mat scal flag a, scal "_alpha" = Some a ->
+      wev (wenv_std cols mat scal flag) e =
+      WR_cols (idx_cols cols mat flag "_pairwise_significance_p_vals" "_pairwise_significance_t_stats" a)
+  | None => True
+  end) /\
+  (match psrc_Slice_pairwise_indices_alt with
+  | Some e => forall cols mat scal flag,
+      wev (wenv_std cols mat scal flag) e =
+      match scal "_alpha_alt" with
+      | None => WR_none
+      | Some b => WR_cols (idx_cols cols mat flag "_pairwise_significance_p_vals"
+                                    "_pairwise_significance_t_stats" b)
+      end
+  | None => True
+  end).
+Proof. exact (conj gen_Slice_pairwise_indices gen_Slice_pairwise_indices_alt). Qed.
+Print Assumptions C13_gen_pairwise_indices_args.
+
+Theorem C13_gen_pairwise_means_indices_args :
+  (match psrc_Slice_pairwise_means_indices with
+  | Some e => forall cols mat scal flag a, scal "_alpha" = Some a ->
+      wev (wenv_std cols mat scal flag) e =
+      WR_cols (idx_cols cols mat flag "_pairwise_significance_means_p_vals"
+                        "_pairwise_significance_means_t_stats" a)
+  | None => True
+  end) /\
+  (match psrc_Slice_pairwise_means_indices_alt with
+  | Some e => forall cols mat scal flag,
+      wev (wenv_std cols mat scal flag) e =
+      match scal "_alpha_alt" with
+      | None => WR_none
+      | Some b => WR_cols (idx_cols cols mat flag "_pairwise_significance_means_p_vals"
+                                    "_pairwise_significance_means_t_stats" b)
+      end
+  | None => True
+  end).
+Proof. exact (conj gen_Slice_pairwise_means_indices gen_Slice_pairwise_means_indices_alt). Qed.
+Print Assumptions C13_gen_pairwise_means_indices_args.
+
+(* ---- non-vacuity: the shape / range hypotheses of the theorems above are inhabited by a table without
+   subtotal rows (those blocks are []), one subtotal column selected (-1) or a base column (1); the model
+   blocks they speak about are not trivial there ---- *)
+Example C13_gen_example_hypotheses :
+  let B := fun (m : string) (bi bj : nat) =>
+    if String.eqb m "column_proportions"
+    then match bi, bj with
+         | 0, 0 => [[Fin (1#2)%Q; Fin (1#4)%Q]; [Fin (1#2)%Q; Fin (3#4)%Q]]
+         | 0, _ => [[Fin (3#8)%Q]; [Fin (5#8)%Q]]
+         | _, _ => []
+         end
+    else match bi, bj with
+         | 0, 0 => [[Fin 8%Q; Fin 8%Q]; [Fin 8%Q; Fin 8%Q]]
+         | 0, _ => [[Fin 16%Q]; [Fin 16%Q]]
+         | _, _ => []
+         end in
+  let c3 := fun (_ _ : string) =>
+    [[[Fin 6%Q; Fin 2%Q]; [Fin 2%Q; Fin 4%Q]]; [[Fin 6%Q; Fin 2%Q]; [Fin 2%Q; Fin 4%Q]]] in
+  pw_shaped B 2 2 0 1 /\ sel_ok (-1) 2 1 /\ sel_ok 1 2 1 /\ ov_shaped B c3 2 2 /\
+  mnth (nth 0 (pw_model (-1) (fun _ => false) B) []) 0 1 =x= Fin ((-16) # 39)%Q /\
+  mnth (nth 5 (pw_model (-1) (fun _ => false) B) []) 0 0 =x= Fin 30%Q /\
+  mnth (nth 0 (pw_model 1 (fun _ => true) B) []) 1 0 =x= Fin ((-8) # 7)%Q /\
+  aval_wf (Av_float (1#10)%Q) /\ aval_wf (Av_list [It_float (1#10)%Q; It_other]).
+Proof.
+  cbv zeta. unfold pw_shaped, blk_shaped, ov_shaped, sq3, shaped, sel_ok, aval_wf.
+  repeat split; try reflexivity; try lia; try (intros; cbn; lia); try (vm_compute; reflexivity);
+    try (intro H; discriminate H);
+    try (destruct i as [|[|i]]; [reflexivity|reflexivity|lia]);
+    try (intros j Hj; destruct i as [|[|i]]; [| |lia]; (destruct j as [|[|j]]; [reflexivity|reflexivity|lia])).
+Qed.
+
+End GenAgreePairwise_C13.
+
+(* ---- WIRING-APPENDIX:BEGIN (generated by tools/gen_wiring_props.py; do not edit) ---- *)
+From CC Require Proofs.GenAgreeWiring_C13.
+Section Wiring_C13.
+Import Coq.Lists.List Coq.ZArith.ZArith Coq.Strings.String CC.Base.WiringExp CC.Gen.WiringSrc.
+Import ListNotations.
+Local Open Scope string_scope.
+
+Theorem C13_wiring_CubePartition__alpha :
+  wsrc_CubePartition__alpha = Some (WIndex (WSelf "_alpha_values") [WInt (0)%Z]).
+Proof. exact Proofs.GenAgreeWiring_C13.gen_wiring_CubePartition__alpha. Qed.
+Print Assumptions C13_wiring_CubePartition__alpha.
+
+Theorem C13_wiring_CubePartition__alpha_alt :
+  wsrc_CubePartition__alpha_alt = Some (WIndex (WSelf "_alpha_values") [WInt (1)%Z]).
+Proof. exact Proofs.GenAgreeWiring_C13.gen_wiring_CubePartition__alpha_alt. Qed.
+Print Assumptions C13_wiring_CubePartition__alpha_alt.
+
+Theorem C13_wiring_CubePartition__only_larger :
+  wsrc_CubePartition__only_larger = Some (WIf (WCmp "is" (WCall (WAttr (WCall (WAttr (WSelf
+      "_transforms_dict") "get") [WStr "pairwise_indices"; WDict []] []) "get") [WStr "only_larger";
+      WTrue] []) (WFalse)) (WFalse) (WTrue)).
+Proof. exact Proofs.GenAgreeWiring_C13.gen_wiring_CubePartition__only_larger. Qed.
+Print Assumptions C13_wiring_CubePartition__only_larger.
+
+Theorem C13_wiring_Slice_columns_squared_base :
+  wsrc_Slice_columns_squared_base = Some (WIf (WUn "not" (WAttr (WAttr (WSelf "_measures")
+      "columns_squared_base") "is_defined")) (WNone) (w_marginal_of "columns_squared_base")).
+Proof. exact Proofs.GenAgreeWiring_C13.gen_wiring_Slice_columns_squared_base. Qed.
+Print Assumptions C13_wiring_Slice_columns_squared_base.
+
+Theorem C13_wiring_Slice_columns_scale_mean_pairwise_indices :
+  wsrc_Slice_columns_scale_mean_pairwise_indices = Some (WCall (WAttr (WGlobal "PairwiseSignificance")
+      "scale_mean_pairwise_indices") [WVar "self"; WSelf "_alpha"; WSelf "_only_larger"] []).
+Proof. exact Proofs.GenAgreeWiring_C13.gen_wiring_Slice_columns_scale_mean_pairwise_indices. Qed.
+Print Assumptions C13_wiring_Slice_columns_scale_mean_pairwise_indices.
+
+Theorem C13_wiring_Slice_columns_scale_mean_pairwise_indices_alt :
+  wsrc_Slice_columns_scale_mean_pairwise_indices_alt = Some (WIf (WCmp "is" (WSelf "_alpha_alt")
+      (WNone)) (WNone) (WCall (WAttr (WGlobal "PairwiseSignificance") "scale_mean_pairwise_indices")
+      [WVar "self"; WSelf "_alpha_alt"; WSelf "_only_larger"] [])).
+Proof. exact Proofs.GenAgreeWiring_C13.gen_wiring_Slice_columns_scale_mean_pairwise_indices_alt. Qed.
+Print Assumptions C13_wiring_Slice_columns_scale_mean_pairwise_indices_alt.
+
+Theorem C13_wiring_Slice__indices_matrix :
+  wsrc_Slice__indices_matrix = Some (WIf (WCmp "==" (WCall (WGlobal "len") [WVar "column_vectors"] [])
+      (WInt (0)%Z)) (WCall (WAttr (WGlobal "np") "empty") [WTuple [WCall (WGlobal "len") [WSelf
+      "_row_order_signed_indexes"] []; WInt (0)%Z]] [("dtype", WGlobal "object")]) (WAttr (WCall
+      (WAttr (WGlobal "np") "array") [WVar "column_vectors"] []) "T")).
+Proof. exact Proofs.GenAgreeWiring_C13.gen_wiring_Slice__indices_matrix. Qed.
+Print Assumptions C13_wiring_Slice__indices_matrix.
+
+Theorem C13_wiring_Slice__pairwise_means_indices :
+  wsrc_Slice__pairwise_means_indices = Some (WCall (WSelf "_indices_matrix") [WComp "list" (WCall
+      (WSelf "_pairwise_indices") [WCall (WSelf "_pairwise_significance_means_p_vals") [WVar "col"]
+      []; WCall (WSelf "_pairwise_significance_means_t_stats") [WVar "col"] []; WVar "alpha"; WVar
+      "only_larger"; WVar "col"] []) [(["col"], WCall (WGlobal "range") [WCall (WGlobal "len")
+      [WSelf "_column_order_signed_indexes"] []] [], [])]] []).
+Proof. exact Proofs.GenAgreeWiring_C13.gen_wiring_Slice__pairwise_means_indices. Qed.
+Print Assumptions C13_wiring_Slice__pairwise_means_indices.
+
+Theorem C13_wiring_Slice__pairwise_significance_p_vals :
+  wsrc_Slice__pairwise_significance_p_vals = Some (WIf (WSelf "_cube_has_overlaps") (WCall (WSelf
+      "_assemble_matrix") [WAttr (WCall (WAttr (WSelf "_measures") "pairwise_p_vals_for_subvar")
+      [WIndex (WSelf "_column_order_signed_indexes") [WVar "column_idx"]] []) "blocks"] []) (WCall
+      (WSelf "_assemble_matrix") [WAttr (WCall (WAttr (WSelf "_measures") "pairwise_p_vals") [WIndex
+      (WSelf "_column_order_signed_indexes") [WVar "column_idx"]] []) "blocks"] [])).
+Proof. exact Proofs.GenAgreeWiring_C13.gen_wiring_Slice__pairwise_significance_p_vals. Qed.
+Print Assumptions C13_wiring_Slice__pairwise_significance_p_vals.
+
+Theorem C13_wiring_Slice__pairwise_significance_t_stats :
+  wsrc_Slice__pairwise_significance_t_stats = Some (WIf (WSelf "_cube_has_overlaps") (WCall (WSelf
+      "_assemble_matrix") [WAttr (WCall (WAttr (WSelf "_measures") "pairwise_t_stats_for_subvar")
+      [WIndex (WSelf "_column_order_signed_indexes") [WVar "column_idx"]] []) "blocks"] []) (WCall
+      (WSelf "_assemble_matrix") [WAttr (WCall (WAttr (WSelf "_measures") "pairwise_t_stats")
+      [WIndex (WSelf "_column_order_signed_indexes") [WVar "column_idx"]] []) "blocks"] [])).
+Proof. exact Proofs.GenAgreeWiring_C13.gen_wiring_Slice__pairwise_significance_t_stats. Qed.
+Print Assumptions C13_wiring_Slice__pairwise_significance_t_stats.
+
+Theorem C13_wiring_Slice__pairwise_significance_means_p_vals :
+  wsrc_Slice__pairwise_significance_means_p_vals = Some (WCall (WSelf "_assemble_matrix") [WAttr
+      (WCall (WAttr (WSelf "_measures") "pairwise_significance_means_p_vals") [WIndex (WSelf
+      "_column_order_signed_indexes") [WVar "column_idx"]] []) "blocks"] []).
+Proof. exact Proofs.GenAgreeWiring_C13.gen_wiring_Slice__pairwise_significance_means_p_vals. Qed.
+Print Assumptions C13_wiring_Slice__pairwise_significance_means_p_vals.
+
+Theorem C13_wiring_Slice__pairwise_significance_means_t_stats :
+  wsrc_Slice__pairwise_significance_means_t_stats = Some (WCall (WSelf "_assemble_matrix") [WAttr
+      (WCall (WAttr (WSelf "_measures") "pairwise_significance_means_t_stats") [WIndex (WSelf
+      "_column_order_signed_indexes") [WVar "column_idx"]] []) "blocks"] []).
+Proof. exact Proofs.GenAgreeWiring_C13.gen_wiring_Slice__pairwise_significance_means_t_stats. Qed.
+Print Assumptions C13_wiring_Slice__pairwise_significance_means_t_stats.
+
+Theorem C13_wiring_Slice_pairwise_indices :
+  wsrc_Slice_pairwise_indices = Some (WCall (WSelf "_indices_matrix") [WComp "list" (WCall (WSelf
+      "_pairwise_indices") [WCall (WSelf "_pairwise_significance_p_vals") [WVar "col"] []; WCall
+      (WSelf "_pairwise_significance_t_stats") [WVar "col"] []; WSelf "_alpha"; WSelf
+      "_only_larger"; WVar "col"] []) [(["col"], WCall (WGlobal "range") [WCall (WGlobal "len")
+      [WSelf "_column_order_signed_indexes"] []] [], [])]] []).
+Proof. exact Proofs.GenAgreeWiring_C13.gen_wiring_Slice_pairwise_indices. Qed.
+Print Assumptions C13_wiring_Slice_pairwise_indices.
+
+Theorem C13_wiring_Slice_pairwise_indices_alt :
+  wsrc_Slice_pairwise_indices_alt = Some (WIf (WCmp "is" (WSelf "_alpha_alt") (WNone)) (WNone) (WCall
+      (WSelf "_indices_matrix") [WComp "list" (WCall (WSelf "_pairwise_indices") [WCall (WSelf
+      "_pairwise_significance_p_vals") [WVar "col"] []; WCall (WSelf
+      "_pairwise_significance_t_stats") [WVar "col"] []; WSelf "_alpha_alt"; WSelf "_only_larger";
+      WVar "col"] []) [(["col"], WCall (WGlobal "range") [WCall (WGlobal "len") [WSelf
+      "_column_order_signed_indexes"] []] [], [])]] [])).
+Proof. exact Proofs.GenAgreeWiring_C13.gen_wiring_Slice_pairwise_indices_alt. Qed.
+Print Assumptions C13_wiring_Slice_pairwise_indices_alt.
+
+Theorem C13_wiring_Slice_pairwise_means_indices :
+  wsrc_Slice_pairwise_means_indices = Some (WTryValueError (WCall (WSelf "_pairwise_means_indices")
+      [WSelf "_alpha"; WSelf "_only_larger"] []) "").
+Proof. exact Proofs.GenAgreeWiring_C13.gen_wiring_Slice_pairwise_means_indices. Qed.
+Print Assumptions C13_wiring_Slice_pairwise_means_indices.
+
+Theorem C13_wiring_Slice_pairwise_means_indices_alt :
+  wsrc_Slice_pairwise_means_indices_alt = Some (WIf (WCmp "is" (WSelf "_alpha_alt") (WNone)) (WNone)
+      (WTryValueError (WCall (WSelf "_pairwise_means_indices") [WSelf "_alpha_alt"; WSelf
+      "_only_larger"] []) "")).
+Proof. exact Proofs.GenAgreeWiring_C13.gen_wiring_Slice_pairwise_means_indices_alt. Qed.
+Print Assumptions C13_wiring_Slice_pairwise_means_indices_alt.
+
+Theorem C13_wiring_Slice_pairwise_significance_p_vals :
+  wsrc_Slice_pairwise_significance_p_vals = Some (WCall (WSelf "_pairwise_significance_p_vals") [WVar
+      "column_idx"] []).
+Proof. exact Proofs.GenAgreeWiring_C13.gen_wiring_Slice_pairwise_significance_p_vals. Qed.
+Print Assumptions C13_wiring_Slice_pairwise_significance_p_vals.
+
+Theorem C13_wiring_Slice_pairwise_significance_t_stats :
+  wsrc_Slice_pairwise_significance_t_stats = Some (WCall (WSelf "_pairwise_significance_t_stats")
+      [WVar "column_idx"] []).
+Proof. exact Proofs.GenAgreeWiring_C13.gen_wiring_Slice_pairwise_significance_t_stats. Qed.
+Print Assumptions C13_wiring_Slice_pairwise_significance_t_stats.
+
+Theorem C13_wiring_Slice_pairwise_significance_means_p_vals :
+  wsrc_Slice_pairwise_significance_means_p_vals = Some (WTryValueError (WCall (WSelf
+      "_pairwise_significance_means_p_vals") [WVar "column_idx"] []) "").
+Proof. exact Proofs.GenAgreeWiring_C13.gen_wiring_Slice_pairwise_significance_means_p_vals. Qed.
+Print Assumptions C13_wiring_Slice_pairwise_significance_means_p_vals.
+
+Theorem C13_wiring_Slice_pairwise_significance_means_t_stats :
+  wsrc_Slice_pairwise_significance_means_t_stats = Some (WTryValueError (WCall (WSelf
+      "_pairwise_significance_means_t_stats") [WVar "column_idx"] []) "").
+Proof. exact Proofs.GenAgreeWiring_C13.gen_wiring_Slice_pairwise_significance_means_t_stats. Qed.
+Print Assumptions C13_wiring_Slice_pairwise_significance_means_t_stats.
+
+Theorem C13_wiring_Slice_pairwise_significance_tests :
+  wsrc_Slice_pairwise_significance_tests = Some (WCall (WGlobal "tuple") [WComp "gen" (WIndex (WAttr
+      (WCall (WGlobal "PairwiseSignificance") [WVar "self"] []) "values") [WVar "column_idx"])
+      [(["column_idx"], WCall (WGlobal "range") [WCall (WGlobal "len") [WSelf "column_labels"] []]
+      [], [])]] []).
+Proof. exact Proofs.GenAgreeWiring_C13.gen_wiring_Slice_pairwise_significance_tests. Qed.
+Print Assumptions C13_wiring_Slice_pairwise_significance_tests.
+
+Theorem C13_wiring_Slice_summary_pairwise_indices :
+  wsrc_Slice_summary_pairwise_indices = Some (WAttr (WCall (WGlobal "PairwiseSignificance") [WVar
+      "self"; WSelf "_alpha"; WSelf "_only_larger"] []) "summary_pairwise_indices").
+Proof. exact Proofs.GenAgreeWiring_C13.gen_wiring_Slice_summary_pairwise_indices. Qed.
+Print Assumptions C13_wiring_Slice_summary_pairwise_indices.
+
+Theorem C13_wiring_Slice__cube_has_overlaps :
+  wsrc_Slice__cube_has_overlaps = Some (WBoolOp "and" [WCmp "==" (WAttr (WIndex (WSelf "_dimensions")
+      [WInt (-1)%Z]) "dimension_type") (WAttr (WGlobal "DT") "MR"); WCmp "is not" (WAttr (WSelf
+      "_cube") "overlaps") (WNone); WCmp "is not" (WAttr (WSelf "_cube") "valid_overlaps")
+      (WNone)]).
+Proof. exact Proofs.GenAgreeWiring_C13.gen_wiring_Slice__cube_has_overlaps. Qed.
+Print Assumptions C13_wiring_Slice__cube_has_overlaps.
+
+Theorem C13_wiring_SecondOrderMeasures_column_squared_bases :
+  wsrc_SecondOrderMeasures_column_squared_bases = Some (WCall (WGlobal "_ColumnSquaredBases") [WSelf
+      "_dimensions"; WVar "self"; WSelf "_cube_measures"] []).
+Proof. exact Proofs.GenAgreeWiring_C13.gen_wiring_SecondOrderMeasures_column_squared_bases. Qed.
+Print Assumptions C13_wiring_SecondOrderMeasures_column_squared_bases.
+
+Theorem C13_wiring_SecondOrderMeasures_columns_squared_base :
+  wsrc_SecondOrderMeasures_columns_squared_base = Some (WCall (WGlobal "_MarginSquaredBase") [WSelf
+      "_dimensions"; WVar "self"; WSelf "_cube_measures"; WAttr (WGlobal "MO") "COLUMNS"] []).
+Proof. exact Proofs.GenAgreeWiring_C13.gen_wiring_SecondOrderMeasures_columns_squared_base. Qed.
+Print Assumptions C13_wiring_SecondOrderMeasures_columns_squared_base.
+
+Theorem C13_wiring_SecondOrderMeasures_pairwise_p_vals_for_subvar :
+  wsrc_SecondOrderMeasures_pairwise_p_vals_for_subvar = Some (WCall (WGlobal
+      "_PairwiseSigPValsForSubvar") [WSelf "_dimensions"; WVar "self"; WSelf "_cube_measures"; WVar
+      "subvar_idx"] []).
+Proof. exact Proofs.GenAgreeWiring_C13.gen_wiring_SecondOrderMeasures_pairwise_p_vals_for_subvar. Qed.
+Print Assumptions C13_wiring_SecondOrderMeasures_pairwise_p_vals_for_subvar.
+
+Theorem C13_wiring_SecondOrderMeasures_pairwise_t_stats_for_subvar :
+  wsrc_SecondOrderMeasures_pairwise_t_stats_for_subvar = Some (WCall (WGlobal
+      "_PairwiseSigTStatsForSubvar") [WSelf "_dimensions"; WVar "self"; WSelf "_cube_measures"; WVar
+      "subvar_idx"] []).
+Proof. exact Proofs.GenAgreeWiring_C13.gen_wiring_SecondOrderMeasures_pairwise_t_stats_for_subvar. Qed.
+Print Assumptions C13_wiring_SecondOrderMeasures_pairwise_t_stats_for_subvar.
+
+Theorem C13_wiring_SecondOrderMeasures_pairwise_p_vals :
+  wsrc_SecondOrderMeasures_pairwise_p_vals = Some (WCall (WGlobal "_PairwiseSigPvals") [WSelf
+      "_dimensions"; WVar "self"; WSelf "_cube_measures"; WVar "column_idx"] []).
+Proof. exact Proofs.GenAgreeWiring_C13.gen_wiring_SecondOrderMeasures_pairwise_p_vals. Qed.
+Print Assumptions C13_wiring_SecondOrderMeasures_pairwise_p_vals.
+
+Theorem C13_wiring_SecondOrderMeasures_pairwise_t_stats :
+  wsrc_SecondOrderMeasures_pairwise_t_stats = Some (WCall (WGlobal "_PairwiseSigTstats") [WSelf
+      "_dimensions"; WVar "self"; WSelf "_cube_measures"; WVar "column_idx"] []).
+Proof. exact Proofs.GenAgreeWiring_C13.gen_wiring_SecondOrderMeasures_pairwise_t_stats. Qed.
+Print Assumptions C13_wiring_SecondOrderMeasures_pairwise_t_stats.
+
+Theorem C13_wiring_SecondOrderMeasures_pairwise_significance_means_p_vals :
+  wsrc_SecondOrderMeasures_pairwise_significance_means_p_vals = Some (WCall (WGlobal
+      "_PairwiseMeansSigPVals") [WSelf "_dimensions"; WVar "self"; WSelf "_cube_measures"; WVar
+      "column_idx"] []).
+Proof. exact Proofs.GenAgreeWiring_C13.gen_wiring_SecondOrderMeasures_pairwise_significance_means_p_vals. Qed.
+Print Assumptions C13_wiring_SecondOrderMeasures_pairwise_significance_means_p_vals.
+
+Theorem C13_wiring_SecondOrderMeasures_pairwise_significance_means_t_stats :
+  wsrc_SecondOrderMeasures_pairwise_significance_means_t_stats = Some (WCall (WGlobal
+      "_PairwiseMeansSigTStats") [WSelf "_dimensions"; WVar "self"; WSelf "_cube_measures"; WVar
+      "column_idx"] []).
+Proof. exact Proofs.GenAgreeWiring_C13.gen_wiring_SecondOrderMeasures_pairwise_significance_means_t_stats. Qed.
+Print Assumptions C13_wiring_SecondOrderMeasures_pairwise_significance_means_t_stats.
+
+Theorem C13_wiring_BaseSecondOrderMeasure__weighted_squared_cube_counts :
+  wsrc_BaseSecondOrderMeasure__weighted_squared_cube_counts = Some (WAttr (WSelf "_cube_measures")
+      "weighted_squared_cube_counts").
+Proof. exact Proofs.GenAgreeWiring_C13.gen_wiring_BaseSecondOrderMeasure__weighted_squared_cube_counts. Qed.
+Print Assumptions C13_wiring_BaseSecondOrderMeasure__weighted_squared_cube_counts.
+
+Theorem C13_wiring_MatrixCubeMeasures_cube_overlaps :
+  wsrc_MatrixCubeMeasures_cube_overlaps = Some (WCall (WAttr (WGlobal "_BaseCubeOverlaps") "factory")
+      [WSelf "_cube"; WSelf "_dimensions"; WSelf "_slice_idx"] []).
+Proof. exact Proofs.GenAgreeWiring_C13.gen_wiring_MatrixCubeMeasures_cube_overlaps. Qed.
+Print Assumptions C13_wiring_MatrixCubeMeasures_cube_overlaps.
+
+Theorem C13_wiring_MatrixCubeMeasures_weighted_squared_cube_counts :
+  wsrc_MatrixCubeMeasures_weighted_squared_cube_counts = Some (WIf (WCmp "is" (WAttr (WSelf "_cube")
+      "weighted_squared_counts") (WNone)) (WNone) (WCall (WAttr (WGlobal "_BaseCubeCounts")
+      "factory") [WAttr (WSelf "_cube") "weighted_squared_counts"; WFalse; WSelf "_cube"; WSelf
+      "_dimensions"; WSelf "_slice_idx"] [])).
+Proof. exact Proofs.GenAgreeWiring_C13.gen_wiring_MatrixCubeMeasures_weighted_squared_cube_counts. Qed.
+Print Assumptions C13_wiring_MatrixCubeMeasures_weighted_squared_cube_counts.
+
+End Wiring_C13.
+(* ---- WIRING-APPENDIX:END ---- *)
